@@ -6,21 +6,11 @@ from ..pm import U
 from . import common as C
 from .c18 import effects_of, mutation_findings
 
-TECHNIQUE = "static analysis: provenance patterns (origin expression + combining operator) on the composition path of assign_tp_lt; None-discipline contradiction check via reaching definitions and guard facts; ownership analysis (no in-place mutation of model tables); data cross-reference of register types against multiplier tables"
+TECHNIQUE = (
+    'static analysis: provenance patterns (origin expression + combining operator) on the composition path of assign_tp_lt; None-discipline contradiction check via reaching definitions and guard facts; ownership analysis (no in-place mutation of model tables); data cross-reference of register types against multiplier tables ; container-vs-element contradiction check on the role lists; field agreement between shipped table rows, loader and matcher'
+)
 EXPLANATION = (
-    "R1: on the composed path of ArchSemantics.assign_tp_lt port_pressure is the element-wise sum of the "
-    "data-port vector and the register form's average, port_uops the concatenation of both micro-op "
-    "lists, latency = register latency + load (+ store) latency of the register type at the "
-    "substituted position, latency_wo_load originates from the register latency only, throughput = "
-    "max(busiest data port, register throughput); the data-port vector is the (multiplier-scaled) "
-    "average of the selected load/store micro-ops. R2: throughput/latency of a model entry are "
-    "None-able (the loader passes ~ through; _handle_instruction_found guards both); every "
-    "arithmetic/max/+= use of such a value in the semantics classes is dominated by a None test. "
-    "R3: no in-place mutation of model storage while composing (the C18 ownership analysis restricted "
-    "to the composition path). R4: the unknown path sets zero pressure/latency/throughput and both "
-    "unknown flags, is taken exactly when neither form matched, and assign_tp_lt writes only the "
-    "instruction it was given. D1: register types used by a model's entries are covered by its "
-    "multiplier tables."
+    "R1: on the composed path of ArchSemantics.assign_tp_lt port_pressure is the element-wise sum of the data-port vector and the register form's average, port_uops the concatenation of both micro-op lists, latency = register latency + load (+ store) latency of the register type at the substituted position, latency_wo_load originates from the register latency only, throughput = max(busiest data port, register throughput); the data-port vector is the (multiplier-scaled) average of the selected load/store micro-ops. R2: throughput/latency of a model entry are None-able (the loader passes ~ through; _handle_instruction_found guards both); every arithmetic/max/+= use of such a value in the semantics classes is dominated by a None test. R3: no in-place mutation of model storage while composing (the C18 ownership analysis restricted to the composition path). R4: the unknown path sets zero pressure/latency/throughput and both unknown flags, is taken exactly when neither form matched, and assign_tp_lt writes only the instruction it was given. D1: register types used by a model's entries are covered by its multiplier tables. R5 (contradiction): the operand role lists semantic_operands[...] are lists at every other use; an isinstance test of the list itself against an operand class is constant. D2 (writer/reader agreement): every field that a shipped load/store table row carries and that the addressing-mode matcher compares on the model side is handed to the MemoryOperand the loader builds for the row."
 )
 NOT_DECIDED = "Recomputation of the composed numbers over generated models (behavioural)."
 ASSUMPTIONS = [
@@ -345,6 +335,87 @@ def _d1(ctx):
         ctx.ok("D1", "%s: load_latency rows %s" % (rel, sorted(ll)), rel)
 
 
+def _r5(ctx):
+    """Contradiction rule: the role lists semantic_operands['source'|'destination'|'src_dst'] are lists everywhere (built as
+    lists by ISASemantics, iterated / chained / indexed by every reader); a type test of the list itself against an operand
+    class can never succeed, so the condition it sits in is constant."""
+    ctx.rule("R5", "the operand role lists are never type-tested as if they were a single operand")
+    roles = ("source", "destination", "src_dst")
+    iterated = tested = 0
+    for f in ctx.repo.all_funcs():
+        if f.file.startswith("osaca/data/"):
+            continue
+        for n in ast.walk(f.node):
+            if isinstance(n, ast.Subscript) and isinstance(n.slice, ast.Constant) and n.slice.value in roles \
+                    and U(n.value).endswith("semantic_operands"):
+                par = C.parent(n)
+                if isinstance(par, ast.Call) and C.is_call_to(par, "isinstance") and par.args and par.args[0] is n:
+                    tested += 1
+                    cls = U(par.args[1]) if len(par.args) > 1 else "?"
+                    if cls in ("list", "tuple", "(list, tuple)"):
+                        continue
+                    ctx.touch(f)
+                    ctx.node_bad("R5", f, par, "`%s` tests the whole role list against %s: the list is never an operand, the test is "
+                                 "constantly False (its negation constantly True), so the branch it guards is taken for every "
+                                 "instruction - e.g. the store micro-ops of a composed store are dropped as if it were an indexed "
+                                 "load" % (U(par), cls))
+                elif isinstance(par, (ast.For, ast.comprehension)) or (isinstance(par, ast.BinOp) and isinstance(par.op, ast.Add)) \
+                        or isinstance(par, ast.Call):
+                    iterated += 1
+    ctx.floor("R5", "uses of the role lists as lists", iterated, 10)
+    ctx.ok("R5", "%d uses of the role lists as sequences, %d isinstance tests on them examined" % (iterated, tested), "")
+
+
+def _d2(ctx):
+    """Writer/reader agreement for the load/store tables: every field that a shipped row carries and that the addressing-mode
+    matcher consults on the model side (i_mem.<field>) must be handed to the MemoryOperand the loader builds for that row."""
+    ctx.rule("D2", "every field of a load/store table row that the addressing-mode matcher consults is carried over by the loader")
+    init = ctx.func("MachineModel.__init__")
+    consulted = {}
+    for q in ("MachineModel._is_AArch64_mem_type", "MachineModel._is_x86_mem_type"):
+        m = ctx.func(q)
+        ip = m.params()[1]      # (self, i_mem, mem)
+        consulted[q] = {n.attr for n in ast.walk(m.node) if isinstance(n, ast.Attribute) and isinstance(n.value, ast.Name) and n.value.id == ip}
+    for table, role in (("load_throughput", "dst"), ("store_throughput", "src")):
+        loops = [l for l in ast.walk(init.node) if isinstance(l, ast.For) and U(l.iter) == "self._data['%s']" % table]
+        if len(loops) != 1:
+            ctx.broken("D2: conversion loop over self._data['%s'] not found in MachineModel.__init__" % table)
+        loop = loops[0]
+        row = U(loop.target)
+        mos = [c for c in ast.walk(loop) if isinstance(c, ast.Call) and pm.call_name(c) == "MemoryOperand"]
+        if len(mos) != 1:
+            ctx.broken("D2: MemoryOperand(...) construction for %s rows not found" % table)
+        passed = {}
+        for k in mos[0].keywords:
+            reads = {n.slice.value for n in ast.walk(k.value) if isinstance(n, ast.Subscript) and U(n.value) == row
+                     and isinstance(n.slice, ast.Constant)}
+            reads |= {n.args[0].value for n in ast.walk(k.value) if isinstance(n, ast.Call) and isinstance(n.func, ast.Attribute)
+                      and n.func.attr == "get" and U(n.func.value) == row and n.args and isinstance(n.args[0], ast.Constant)}
+            passed[k.arg] = reads
+        # fields present in the shipped rows, per ISA
+        for isa, q in (("aarch64", "MachineModel._is_AArch64_mem_type"), ("x86", "MachineModel._is_x86_mem_type")):
+            keys = {}
+            for path, d in sorted(ctx.data.models().items()):
+                if not isinstance(d, dict) or str(d.get("isa", "")).lower() != isa:
+                    continue
+                for r in d.get(table) or []:
+                    if isinstance(r, dict):
+                        for k in r:
+                            keys.setdefault(k, ctx.data.rel(path))
+            for k in sorted(keys):
+                if k == "port_pressure":
+                    continue
+                if k not in consulted[q] and k != role:
+                    ctx.ok("D2", "%s/%s: row field '%s' is not consulted by %s" % (isa, table, k, q.split(".")[1]), keys[k])
+                    continue
+                ok = k in passed and k in passed[k]
+                ctx.check(ok, "D2", "%s/%s: row field '%s' -> MemoryOperand(%s=row['%s'])" % (isa, table, k, k, k), init.where(mos[0]),
+                          "rows of %s carry the field '%s' (e.g. %s) and the matcher %s compares it, but the loader builds the row's "
+                          "MemoryOperand without it (keywords: %s): every row then has the default value, rows that differ only in "
+                          "'%s' become indistinguishable and the first one in file order is used for all of them" % (
+                              table, k, keys[k], q.split(".")[1], sorted(passed), k), init.qname, "%s %s field %s" % (isa, table, k))
+
+
 def run(ctx):
     C.require_locals(ctx, ctx.func('ArchSemantics.assign_tp_lt'), ['instruction_form', 'operands', 'reg_type', 'throughput', 'latency', 'latency_wo_load', 'assign_unknown', 'flags', 'port_number', 'instruction_data'])
     f = ctx.func(FN)
@@ -365,4 +436,6 @@ def run(ctx):
         ctx.check(s.ret.d >= want, "R3", "%s hands out at most the rows by reference (depth >= %d)" % (q, want),
                   ctx.repo.func(q).where(), "%s returns the model's table itself" % q, q, "summary " + q)
     _r4(ctx, f)
+    _r5(ctx)
     _d1(ctx)
+    _d2(ctx)
